@@ -12,7 +12,7 @@ def obligations(tier):
     o.append(Obl("stream_decode_memory_safety_all_buffers_le%d" % maxn, "h_stream.c", {"MAXN": maxn}, variant="dbg", unwind=maxn + 2, timeout=900,
                  funcs=["cbor_stream_decode"], desc="Layer 1: cbor_stream_decode on every exact-size buffer of <= %d symbolic bytes with all CBMC memory/UB checks" % maxn,
                  bounds="all buffers <= %d bytes" % maxn))
-    fam = tc.family(tier)
+    fam = [s for s in tc.family(tier) if not (s["in_S"] and s["nheads"] == s["k"] and s["status"] == "open")]
     o += tc.batch_obligations("load_safety", fam, "h_load.c", {"P_SAFETY": 1}, variant="dbg", truncations=True, weight_cap=36, max_cases=5, funcs=F, timeout=900,
                               desc="cbor_load on the skeleton and on EVERY truncation of it (exact-size heap block, freed right after the call); on success describe/size/serialize(symbolic n)/copy/release; "
                                    "CBMC object-bounds, NULL, use-after-free, double-free, leak, signed-overflow, shift checks + live CBOR_ASSERT; unwinding assertions = termination")
@@ -23,6 +23,7 @@ META = dict(
     level="model_checking",
     bounds={"quick": "Layer 1: every buffer <= 12 bytes through cbor_stream_decode. Layer 2: all live head sequences <= 3 heads (17-symbol alphabet) + leaf variety + special shapes, each with every truncation offset; data bytes symbolic; serialize buffer size symbolic 0..size+1",
             "thorough": "Layer 1: <= 16 bytes. Layer 2: <= 4 heads"},
+    tier_note="the pointer-checked safety family drops the still-open sequences of maximal length (they are truncated inputs whose cleanup paths are also reached by the mid-token truncations of the kept members and by the open sequences one head shorter); C05 runs them all",
     assumptions=["allocations succeed (refusal is C06)", "stdio stubs for cbor_describe (formatting not modelled; argument evaluation is)", "ldexp model", "DEBUG build so CBOR_ASSERT is live"],
     outside=["byte-exhaustive symbolic input to cbor_load (no verdict even at 1 byte, DESIGN 1.1): replaced by the Layer 1 lemma + skeleton enumeration", "inputs with more heads than the bound",
              "pointer-arithmetic-overflow-only findings are listed as unconfirmed, never as violations"],
